@@ -187,6 +187,9 @@ impl Database {
         let mut storage = storage_arc.write();
         storage.grow(2)?;
         crate::btree::BTree::create(&mut *storage, 1)?;
+        // create_table synced the file when it had only its header page: without this the root
+        // page of an acknowledged CREATE TABLE is not durable until the first logged write
+        storage.sync()?;
 
         let needs_toast = {
             let catalog_guard = self.shared.catalog.read();
@@ -207,6 +210,7 @@ impl Database {
             let mut toast_storage = toast_storage_arc.write();
             toast_storage.grow(2)?;
             crate::btree::BTree::create(&mut *toast_storage, 1)?;
+            toast_storage.sync()?;
 
             self.shared.table_id_lookup.write().insert(
                 toast_id as u32,
@@ -248,6 +252,7 @@ impl Database {
             let mut index_storage = index_storage_arc.write();
             index_storage.grow(2)?;
             crate::btree::BTree::create(&mut *index_storage, 1)?;
+            index_storage.sync()?;
 
             let index_def = crate::schema::table::IndexDef::new(
                 index_name.clone(),
